@@ -290,6 +290,11 @@ fn arm_faults(ctx: &Ctx, sc: &Scenario) {
 
 pub const MAX_STEPS: u64 = 400_000;
 
+thread_local! {
+    /// Run the next `run_calls` without a scheduler (only meaningful for sequential calls).
+    pub static FREE_RUN: std::cell::Cell<bool> = const { std::cell::Cell::new(false) };
+}
+
 /// Execute the scenario's call sequence once. `replay` overrides the strategy.
 pub fn run_calls(b: &mut Built, sc: &Scenario, spec: &StratSpec, seed: u64, replay: Option<Vec<u32>>) -> RunOut {
     let ctx = b.ctx.clone();
@@ -307,10 +312,15 @@ pub fn run_calls(b: &mut Built, sc: &Scenario, spec: &StratSpec, seed: u64, repl
     let other_pool = sc.from_pool.map(|n| rayon::ThreadPoolBuilder::new().num_threads(n).build().expect("pool"));
     let ctx2 = ctx.clone();
     #[cfg(feature = "real")]
-    let runner = detsim::ext::run_ext;
+    let sched = detsim::ext::run_ext;
     #[cfg(not(feature = "real"))]
-    let runner = detsim::run;
-    let report = runner(cfg, || {
+    let sched = detsim::run;
+    // a free run (sequential calls only) needs no scheduler: scheduler points are switched off
+    let free = FREE_RUN.with(|f| f.get());
+    if free {
+        ctx.mode.store(2, Ordering::SeqCst);
+    }
+    let mut body = || {
         detsim::set_info(PH_CALLER);
         for (ci, call) in sc.calls.iter().enumerate() {
             ctx.cur_call.store(ci, Ordering::SeqCst);
@@ -363,7 +373,14 @@ pub fn run_calls(b: &mut Built, sc: &Scenario, spec: &StratSpec, seed: u64, repl
             });
             detsim::yield_with_info(PH_CALLER);
         }
-    });
+    };
+    let report = if free {
+        body();
+        detsim::Report { outcome: detsim::Outcome::Done, trace: vec![], steps: 0, switches: 0, tasks: 1, escaped_panics: vec![], max_live: 0 }
+    } else {
+        sched(cfg, body)
+    };
+    ctx.mode.store(0, Ordering::SeqCst);
     let events = std::mem::take(&mut *ctx.events.lock().unwrap());
     if std::env::var("VERIF_DUMP_EVENTS").is_ok() {
         for e in &events {
